@@ -68,7 +68,7 @@ SITES = {
 # the exempt site: inside Pos's own methods construction is raw (used by the hook itself); nothing to assert beyond "builds"
 
 
-def program(under, hook, site, arg_kind):
+def program(under, hook, site, arg_kind, use_first=False):
     u = UNDER[under]
     d, validated = decl(under, hook)
     imported = site.startswith("imported_")
@@ -81,6 +81,9 @@ def program(under, hook, site, arg_kind):
     main = (sub(extra) + "\n\n" if extra else "") + "def main() -> None:\n" + "\n".join("    " + l for l in body.split("\n")) + "\n"
     if imported:
         return {"ntmod.incn": "pub " + d, "prog.incn": "from ntmod import Pos\n\n\n" + main}, validated
+    if use_first:
+        # the construction site is declared earlier in the file than the newtype (legal: declarations are order-independent)
+        return {"prog.incn": main + "\n\n" + d}, validated
     return {"prog.incn": d + "\n\n" + main}, validated
 
 
@@ -138,6 +141,14 @@ def run(tier):
                         continue
                     src, validated = program(under, hook, site, ak)
                     cases.append(((f"under:{under}", f"hook:{hook}", f"site:{site}", f"arg:{ak}"), src, validated, under, ak))
+    # declaration order: the same sites with the newtype declared *after* its uses
+    for site in SITES:
+        for hook in ("from_underlying", "single_from"):
+            for ak in ("ok", "bad"):
+                if not thorough and hook == "single_from" and site not in ("let", "helper_fn", "other_type_method"):
+                    continue
+                src, validated = program("int", hook, site, ak, use_first=True)
+                cases.append((("under:int", f"hook:{hook}", f"site:{site}+declared-after-use", f"arg:{ak}"), src, validated, "int", ak))
     # domain: programs the checker accepts
     single = [i for i, c in enumerate(cases) if len(c[1]) == 1]
     fr = serve.run_requests([{"id": i, "op": "front", "src": cases[i][1]["prog.incn"], "emit": False} for i in single])
@@ -201,7 +212,7 @@ def run(tier):
     cov = {
         "evaluations": len(cases) + 2 * len(mixes),
         "distinct_nontrivial": len(sig_ok),
-        "rule": "underlying type (int, str, float) x hook kind (none, from_underlying, single from_<type>, hook + other method, two from_* = no hook selected) x 19 construction "
+        "rule": "underlying type (int, str, float) x hook kind (none, from_underlying, single from_<type>, hook + other method, two from_* = no hook selected) x 19 construction sites (each also with the newtype declared after its uses) "
         "sites + 3 sites where the newtype is imported from another module (let, annotated/mut let, argument, return, model field, list element, nested call, another type's method, trait impl / default method, if / for / match blocks, "
         "closure, comprehension, Some(..), helper function, second construction) x argument class (accepted, rejected, boundary); quick restricts the product as stated in the code; "
         "plus 8 mixing positions for two newtypes over int (with accepted twins); non-trivial = distinct signatures that built, ran and satisfied the oracle",
